@@ -1780,13 +1780,12 @@ func (p *BinaryProtocol) WriteAnyWithDesc(desc *TypeDescriptor, val interface{},
 			if !ok {
 				if !cast {
 					return errDismatchPrimitive
-				} else {
-					vv, err := primitive.ToString(val)
-					if err != nil {
-						return err
-					}
-					v = string(vv)
 				}
+				s, err := primitive.ToString(val)
+				if err != nil {
+					return err
+				}
+				return p.WriteString(s)
 			}
 			return p.WriteBinary(vv)
 		}
